@@ -211,6 +211,12 @@ def chk_cell(c, note):
         p = expect("commb." + nm, r, "any_value", shape, msg)
         if p:
             return p
+    from pyModeS.decoder.bds import bds53
+    for nm in ("is53", "hdg53", "ias53", "mach53", "tas53", "vr53"):
+        p = expect("bds53." + nm, call(getattr(bds53, nm), msg), "any_value", is_bool if nm == "is53" else onum, msg)
+        n += 1
+        if p:
+            return p
     for mr in (False, True):
         p = expect("bds.infer", call(pms.bds.infer, msg, mr), "any_value", ostr, msg, (mr,))
         if p:
